@@ -10,6 +10,9 @@ THEOREMS = ["C14_building", "C14_grid_delivered_never_grows", "C14_exported_neve
             "C14_rer_with_renewable_cogeneration_refuted"]
 
 
+FOSSIL = {"GASNATURAL", "GASOLEO", "GLP", "CARBON"}
+
+
 def relate_more_pv(has_cogen):
     def rel(eb, ev, base, var):
         a, b = eb.get("ep", {}), ev.get("ep", {})
@@ -93,7 +96,10 @@ def make_pairs(rng, count):
         base_text = "\n".join(line_of(kd, kw) for kd, kw in b.lines) + "\n"
         evals = [(float(k), float(area), False), (float(k), float(area), True)]
         base = epflow.EpCase("b%d" % i, {"text": base_text}, {"loc": loc}, user, evals, strip=rng.random() < 0.5, tags=b.tags)
-        has_cogen = any(kd == "PRODUCCION" and kw.get("source") == "EL_COGEN" for kd, kw in b.lines)
+        # the recorded finding needs cogenerated electricity whose fuel carries renewable resources (with a fossil fuel the exported
+        # electricity takes non-renewable resources away and RER can only rise)
+        has_cogen = (any(kd == "PRODUCCION" and kw.get("source") == "EL_COGEN" for kd, kw in b.lines) and
+                     any(kd == "CONSUMO" and kw.get("service") == "COGEN" and kw.get("carrier") not in FOSSIL for kd, kw in b.lines))
         variants = []
         for j in range(2):
             mode = rng.choice(["one_step", "all_steps", "some_steps"])
